@@ -34,6 +34,11 @@ func (hs *history) genStep() step {
 	r := hs.r
 	st := step{Via: uint16(prng.Pick(r, hs.nodes)), Tx: r.Chance(7, 10)}
 	users := hs.userChannels()
+	if hs.restarts && r.Chance(4, 100) {
+		st.Op = "restart"
+		st.Tx = true
+		return st
+	}
 	x := r.Intn(100)
 	switch {
 	case len(users) == 0 || x < 50:
@@ -77,8 +82,10 @@ func (hs *history) pickName(i int, st *step, users []channel.Channel, forCalc bo
 func (hs *history) genCreate(st *step, users []channel.Channel) {
 	r := hs.r
 	st.Op = "create"
+	// RetrieveIfNameExists / Overwrite resolve existing channels by name, which presumes
+	// that names identify channels; they are only exercised with name validation on.
 	switch x := r.Intn(100); {
-	case x < 70:
+	case x < 70 || !hs.validate:
 	case x < 85:
 		st.Retrieve = true
 	case x < 95:
